@@ -141,7 +141,9 @@ TEXT = {
             'conservation: each connection\'s wire (client-received ++ unsent) is only extended, by server-generated replies; end '
             'to end: after respond, polling while ready terminates with the whole response in the client\'s receive queue; flush writes '
             'everything queued without polling; these worlds are exactly what well-behaved histories reach (invariant over all '
-            'such histories); one IN event through HttpServer::requests equals the specification parser on carry ++ bytes read. '
+            'such histories); one IN event through HttpServer::requests equals the specification parser on carry ++ bytes read; '
+            'exactly-once end to end: polling while ready yields, under a connection\'s descriptor, exactly the whole-stream '
+            'parser\'s requests on its pending input, in order, once each, for any read sizes and interleaved writes. '
             'Write events accept any amount from one byte to everything offered (partial writes, responses larger than the socket '
             'buffer are inside the theorems; the executable model uses whole writes). Real-socket histories with irregular polls and respond-then-flush check '
             'yield counts, full delivery and quiescence.', 'DESIGN.md section 5 C08',
